@@ -455,6 +455,14 @@ class LoopScope:
             j += 1
         self.pre = evs[:li]
         self.it = evs[li + 1:j]
+        # a `continue` ends the iteration early: whatever comes later in the body is executed by some iterations only
+        n_inner = len(self.inner)
+        marks = ()
+        for ev in self.it:
+            if marks:
+                ev.ctx = ev.ctx[:n_inner] + marks + ev.ctx[n_inner:]
+            if ev.kind == "exit" and ev.node.get("k") == "continue" and not any(c[0] == "loop" for c in ev.ctx[n_inner:]):
+                marks = marks + (("after-continue", id(ev.node)),)
         self.cache = {}
 
     def position(self, kind, node):
@@ -494,8 +502,6 @@ class LoopScope:
         if pos == self.ENTRY or pos is None:
             head, tail = [], []
         else:
-            if self.has_continue():
-                raise Unknown("`continue` in the loop: the order of its statements is not established")
             head, tail = self.it[:pos], self.it[pos + 1:]
         paths = [[(ev, False) for ev in self.pre] + [(ev, True) for ev in head]]
         if pos != self.ENTRY and pos is not None:
@@ -568,21 +574,87 @@ def _exits_with_tests(lp):
     return out
 
 
+def _only_continues(e):
+    """does the (diverging) expression end the iteration by `continue` somewhere?"""
+    return any(y.get("k") == "continue" for y in hir_walk(e))
+
+
+def _leaves_loop(e):
+    return any(y.get("k") in ("break", "ret") for y in hir_walk(e))
+
+
+def _move_guards(lp, target):
+    """the tests under which `target` (a statement of the loop body) is executed and the iteration is not left otherwise:
+    enclosing `if`s (with the branch taken) and earlier `if c { continue }` guards of the enclosing statement lists (with the
+    opposite value). Tests whose other outcome leaves the loop (`if h == 0 { break }`, the condition of a `while`) are the
+    loop's exits, not part of the move decision. -> [(if node, truth)] outermost first, or None if target is not found"""
+    acc = []
+
+    def rec(e):
+        if e is None:
+            return False
+        if e is target:
+            return True
+        k = e.get("k")
+        if k == "closure":
+            return False
+        if k == "if":
+            if rec(e["cond"]):
+                return True
+            for key, pol, other in (("then", True, "else"), ("else", False, "then")):
+                if e.get(key) is None:
+                    continue
+                exit_test = e.get(other) is not None and _diverges(e[other]) and _leaves_loop(e[other]) and not _only_continues(e[other])
+                if not exit_test:
+                    acc.append((e, pol))
+                if rec(e[key]):
+                    return True
+                if not exit_test:
+                    acc.pop()
+            return False
+        if k in ("block", "loop"):
+            bl = e["block"] if k == "block" else e["body"]
+            pushed = 0
+            items = [(st.get("init") if st["k"] == "let" else st.get("e")) for st in bl["stmts"]] + [bl.get("expr")]
+            for x in items:
+                if x is None:
+                    continue
+                if rec(x):
+                    return True
+                y = hir_strip(x)
+                if y is not None and y.get("k") == "if":
+                    dt = _diverges(y["then"]) and _only_continues(y["then"])
+                    de = y.get("else") is not None and _diverges(y["else"]) and _only_continues(y["else"])
+                    if dt and not de:
+                        acc.append((y, False))
+                        pushed += 1
+                    elif de and not dt:
+                        acc.append((y, True))
+                        pushed += 1
+            for _ in range(pushed):
+                acc.pop()
+            return False
+        for c in hir_children(e):
+            if rec(c):
+                return True
+        return False
+
+    return list(acc) if rec(lp) else None
+
+
 def _pick_loop(f):
-    """the back-shift loop: contains `hole = cursor` (both plain locals) under an `if`; the innermost such `if` decides the move"""
+    """the back-shift loop: contains `hole = cursor` (both plain locals) executed under a test - inside an `if`, or after an
+    `if .. { continue }` guard; the tests guarding it decide the move. -> (loop, [(if node, truth)], hole, cursor)"""
     loops = [x for x in hir_walk(f.hir["body"]) if x.get("k") == "loop" and "ForLoop" not in str(x.get("source"))]
     for lp in loops:
         best = None
-        for x in hir_walk(lp):
-            if x.get("k") != "if":
-                continue
-            for y in hir_walk(x["then"]):
-                if y.get("k") == "assign" and hir_local_id(y["l"]) is not None and hir_local_id(hu.strip_casts(y["r"])) is not None:
-                    size = sum(1 for _ in hir_walk(x))
-                    if best is None or size <= best[0]:
-                        best = (size, x, hir_local_id(y["l"]), hir_local_id(hu.strip_casts(y["r"])))
+        for y in hir_walk(lp):
+            if y.get("k") == "assign" and hir_local_id(y["l"]) is not None and hir_local_id(hu.strip_casts(y["r"])) is not None:
+                g = _move_guards(lp, y)
+                if g:
+                    best = (g, hir_local_id(y["l"]), hir_local_id(hu.strip_casts(y["r"])))
         if best:
-            return lp, best[1], best[2], best[3]
+            return lp, best[0], best[1], best[2]
     return None
 
 
@@ -671,7 +743,8 @@ def analyse(f, power_of_two, F=None, slot_tys=()):
     pick = _pick_loop(f)
     if pick is None:
         return None
-    lp, move_if, hole, cursor = pick
+    lp, move_tests, hole, cursor = pick
+    move_if = move_tests[-1][0]
     try:
         scope = LoopScope(f, lp)
     except Unknown as u:
@@ -697,6 +770,10 @@ def analyse(f, power_of_two, F=None, slot_tys=()):
         p_ex = scope.position("exit", ex)
         if p_ex is not None:
             exit_pos.append(p_ex)
+            if any(c[0] == "after-continue" for c in scope.it[p_ex].ctx):
+                out.append(("loop-exits-only-at-empty-slot", "undecided", "the exit lies behind a `continue`: the iterations that reach it are "
+                            "not established", ln))
+                continue
         if not tests:
             out.append(("loop-exits-only-at-empty-slot", "bad",
                         "the back-shift loop can stop before the end of the cluster (unconditional exit): displaced entries behind the "
@@ -765,7 +842,7 @@ def analyse(f, power_of_two, F=None, slot_tys=()):
 
     # (a) the cursor: assigned once per iteration, to its cyclic successor; either before the EMPTY test (then it starts at
     # the hole) or after the move decision (then it starts at the successor of the hole)
-    p_move = scope.position("if", move_if)
+    p_move = scope.position("if", move_tests[0][0])
     cdefs = scope.defs(cursor)
     adv = None
     if len(cdefs) == 1 and scope.always(cdefs[0][1], True) and cdefs[0][1].init is not None:
@@ -840,7 +917,14 @@ def analyse(f, power_of_two, F=None, slot_tys=()):
                         in_range = (i < h <= j) if i <= j else (h > i or h <= j)
                         want_move = not in_range
                         try:
-                            got = bool(evaluator({cursor: j, hole: i}, c, h, p_move, {j: SLOT_MARK}).ev(move_if["cond"]))
+                            got = True
+                            for node, truth in move_tests:
+                                pos = scope.position("if", node)
+                                if pos is None:
+                                    raise Unknown("a test guarding the move is not part of the loop body proper")
+                                if bool(evaluator({cursor: j, hole: i}, c, h, pos, {j: SLOT_MARK}).ev(node["cond"])) != truth:
+                                    got = False
+                                    break
                         except Overflow as u:
                             got = "arithmetic overflow (%s)" % u
                         n += 1
